@@ -22,7 +22,11 @@ EXPLANATION = (
     "Enumerate* come from copying reads; (R6) the instance store is keyed by "
     "CIMInstanceName objects (case/order-insensitive hash and eq, see C05), "
     "membership tests use those objects; (R7) error messages of the "
-    "instance providers can be built. Does not decide that results and "
+    "instance providers can be built; (R8) in the instance operations of "
+    "the providers and the store, CIM names (class names, property names of "
+    "PropertyList, key names) are compared and looked up case-insensitively "
+    "(case-kind abstract interpretation, same engine as C12/C13). Does not "
+    "decide that results and "
     "status codes equal a reference map for every history.")
 ASSUMPTIONS = [
     "copy.deepcopy yields an independent object graph",
@@ -61,6 +65,9 @@ def run(repo, rep, tier):
     r6 = rep.rule('C10.R6', 'instance store keyed by path objects')
     r7 = rep.rule('C10.R7', 'error messages of the instance providers can be '
                   'built')
+    r8 = rep.rule('C10.R8', 'class, property and key names in the instance '
+                  'operations are compared case-insensitively')
+    r8b = rep.rule('C10.R8b', 'no uncalled string method in a comparison')
     st = repo.cls(STORE, 'InMemoryObjectStore')
     # ---- R1 ---------------------------------------------------------------
     for m in st.methods.values():
@@ -467,6 +474,23 @@ def run(repo, rep, tier):
         f.file == 'pywbem_mock/_mainprovider.py' and f.name in (
             'GetInstance', '_get_instance', 'EnumerateInstances',
             'EnumerateInstanceNames', '_validate_instancename_namespace')))
+
+    # ---- R8: names in the instance operations are case-insensitive --------
+    from .. import names
+
+    def scope(f):
+        root = f
+        while root.parent is not None:
+            root = root.parent
+        if f.file in ('pywbem_mock/_instancewriteprovider.py',
+                      'pywbem_mock/_providerdispatcher.py', STORE):
+            return True
+        return f.file in ('pywbem_mock/_mainprovider.py',
+                          'pywbem_mock/_baseprovider.py') and \
+            'nstance' in root.name and \
+            root.name not in names.ASSOC_FUNCS and \
+            not root.name.startswith(('Open', 'Pull', '_open', '_pull'))
+    names.run_name_rules(repo, rep, r8, r8b, scope)
 
 
 def _direct(root, name_node):
